@@ -307,6 +307,49 @@ def frame_zero_bytes():
     return out
 
 
+def must_zero_bytes():
+    """{assembled routine: {destination family: bytes overwritten with zero on EVERY path to EVERY exit}} — must-facts of the
+    abstract interpreter (intersection at joins, ended by any other store to the same place, by calls and by string instructions)"""
+    out = {}
+    for rel, name, r in asmfacts.all_functions():
+        m = None
+        for e in r['exits']:
+            s_ = set(map(tuple, e.get('mz', [])))
+            m = s_ if m is None else (m & s_)
+        if not m:
+            continue
+        fam = {}
+        for bkey, lo, hi, idx in m:
+            if bkey[0] == 'frame':
+                k = 'frame'
+            else:
+                root = bkey
+                while root[0] == 'L':
+                    root = root[1]
+                k = ('arg:' if bkey[0] == 'E' else 'via:') + (root[1] if root[0] == 'E' else '?')
+            fam.setdefault(k, []).append((lo, hi))
+        out[name] = {k: sum(hi - lo for lo, hi in _merge(v)) for k, v in fam.items()}
+    return out
+
+
+def run_s9(chk):
+    s9 = chk.rule('S9', 'every assembled routine still overwrites with zero, on EVERY path to every return, at least as many bytes of each '
+                        'destination family (own frame, buffers reached from one argument) as on the reference tree: a scrub made conditional '
+                        'on a length or moved behind a branch no longer covers all paths', floor=50)
+    with open(SCRUB_BASELINE) as fjs:
+        base = json.load(fjs).get('must_zero', {})
+    cur = must_zero_bytes()
+    names = {n for _, n, _ in asmfacts.all_functions()}
+    for name, fams in sorted(base.items()):
+        if name not in names:
+            continue
+        for k, nb in sorted(fams.items()):
+            have = cur.get(name, {}).get(k, 0)
+            s9.check(have >= nb, '%s:%s' % (name, k), name,
+                     '%s zeroes %d bytes of %s on every path, %d on the reference tree: some path now returns without that scrub' % (
+                         name, have, 'its stack frame' if k == 'frame' else 'the memory reached from %s' % k.split(':')[1], nb))
+
+
 def run_s8(chk):
     s8 = chk.rule('S8', 'every assembled routine still overwrites with zero at least as many bytes of its own stack frame as on the reference '
                         'tree (clearing of state spilled to the stack; a byte count, so that a changed frame layout is not a finding)', floor=40)
@@ -326,7 +369,7 @@ def write_scrub_baseline(P):
     with open(SCRUB_BASELINE, 'w') as f:
         json.dump({'note': 'per out-of-order manager routine: field-relative byte ranges it overwrites with zero on the reference tree '
                            '(SAFE_DATA build); frame_zero: bytes of its own stack frame a routine zeroes; python3 -m imbv.rules.c13 --write-baseline',
-                   'coverage': cov, 'frame_zero': frame_zero_bytes()}, f, indent=0)
+                   'coverage': cov, 'frame_zero': frame_zero_bytes(), 'must_zero': must_zero_bytes()}, f, indent=0)
     return sum(len(v) for v in cov.values())
 
 
@@ -358,6 +401,7 @@ def run(chk):
     run_asm(chk, P)
     run_s2(chk, P)
     run_s8(chk)
+    run_s9(chk)
     # S4: road block coverage and whole-manager clears (shared)
     inits.rule_reattach(chk, P)
     inits.rule_reset(chk, P, 'S4.')
